@@ -148,6 +148,9 @@ class Ctx:
         res = tlc.run(os.path.join(tlc.SPEC, module), cfg=os.path.join(tlc.SPEC, cfg) if cfg else None, env=e,
                       timeout=timeout, workers=workers)
         if res['timed_out'] or res['errors'] or res['generated'] is None or res['queue'] != 0:
+            try:
+                with open(os.path.join(VERIF, 'out', 'last_tlc_error_%s.log' % self.prop), 'w') as f: f.write(res['stdout'])
+            except OSError: pass
             raise Machinery('trace validation %s failed: %s\n%s' % (what, res['errors'][:3], res['stdout'][-3000:]))
         want = sum(1 + expected_steps(t) for t in traces)
         if res['distinct'] != want:
